@@ -69,6 +69,7 @@ WITNESS_UNSOUND = [
     ("C09-visitor-drops-not", "[a:b NOT LIKE 'x%']", "[a:b LIKE 'x%']"),
     ("C09-visitor-drops-not", "[a:b NOT != 1]", "[a:b != 1]"),
     ("C09-specials-hex-binary-constant", "[windows-registry-key:key = b'QUJD']", "[windows-registry-key:key = b'qujd']"),
+    ("C09-ip-canonicalises-regex", "[ipv4-addr:value MATCHES '10.0.0.1/8']", "[ipv4-addr:value MATCHES '10.0.0.0/8']"),
     ("C09-regkey-lowercases-regex", "[windows-registry-key:key MATCHES '\\\\D']", "[windows-registry-key:key MATCHES '\\\\d']"),
 ]
 # (finding id, p, q): a listed rewrite applied at the root that is not recognised
@@ -259,6 +260,26 @@ def regex_lowered(ast):
     return f(ast)
 
 
+def regex_ip_canon(ast):
+    """the meaning the pinned special-value pass gives to MATCHES on an address path: the regular
+    expression replaced by the canonical address text"""
+    def f(x):
+        if x[0] == "atom":
+            _, typ, steps, op, neg, k = x
+            kind = E.special_kind(typ, steps)
+            if op == "MATCHES" and kind in ("ip4", "ip6") and k[0] == "str":
+                return ("atom", typ, steps, op, neg, ("str", E.ip_text_canon(kind, k[1])))
+            return x
+        if x[0] in ("and", "or", "oand", "oor", "ofby"):
+            return (x[0], [f(y) for y in x[1]])
+        if x[0] == "obs":
+            return ("obs", f(x[1]))
+        if x[0] == "qual":
+            return ("qual", f(x[1]), x[2])
+        return x
+    return f(ast)
+
+
 def classify_unsound(p, q, seq):
     """which known cause explains that p and q (reported equivalent) differ on seq"""
     pv, qv = as_pinned_visitor(p), as_pinned_visitor(q)
@@ -272,6 +293,9 @@ def classify_unsound(p, q, seq):
     pl, ql = regex_lowered(p), regex_lowered(q)
     if (pl != p or ql != q) and E.matches(pl, seq) == E.matches(ql, seq):
         return "C09-regkey-lowercases-regex"
+    pi, qi = regex_ip_canon(p), regex_ip_canon(q)
+    if (pi != p or qi != q) and E.matches(pi, seq) == E.matches(qi, seq):
+        return "C09-ip-canonicalises-regex"
     return None
 
 
@@ -349,7 +373,7 @@ def select_mode(run):
                 "equivalent_patterns(%r, %r) is False although the second is the first after one documented absorption" % (p, q),
                 {"kind": "recognise", "p": p, "q": q, "rewrites": ["o-absorb"]}, finding=fid))
     unguarded = "C09-specials-nonstring-constant" in crashed or "C09-specials-embedded-nul" in crashed
-    lowers = any(v.finding == "C09-regkey-lowercases-regex" for v in run.violations)
+    lowers = any(v.finding in ("C09-regkey-lowercases-regex", "C09-ip-canonicalises-regex") for v in run.violations)
     run.coverage["variant"] = {"special_mode": "Unguarded" if unguarded else "Guarded",
                                "regex_mode": "LowerRegex" if lowers else "KeepRegex",
                                "witness_crashes": {k: len(v) for k, v in crashed.items()}}
@@ -359,7 +383,10 @@ def select_mode(run):
 def check(run):
     thorough = run.tier == "thorough"
     nfam = 1500 if thorough else 300
-    nrule = 3000 if thorough else 500
+    nrule = 3000 if thorough else 400
+    nbound = 1500 if thorough else 150
+    import time as _time
+    t_phase = {"start": _time.time()}
     depth = 6 if thorough else 4
     run.coverage["rule"] = (
         "families of patterns from a grammar-directed generator (all operators with and without NOT, all constant "
@@ -367,8 +394,12 @@ def check(run):
         "IPv4/IPv6/registry-key paths with string and non-string constants): base pattern, 1-3 documented rewrites, "
         "a further rewrite, a meaning-changing edit, an independent draw; every member is normalised by the real "
         "normaliser and by the model (normal forms compared), every related pair goes through equivalent_patterns "
-        "in both directions and through the model, every family through find_equivalent_patterns; a case is "
-        "non-trivial when the pattern(s) parsed, normalised and contain a compound node" % depth)
+        "in both directions and through the model, every family through find_equivalent_patterns; plus, per run, "
+        "%d instances of the listed rewrites applied at the root with generated sub-expressions (must be recognised) "
+        "and %d patterns at the boundary of the absorption containment tests (repeated operands, sub-sequences, "
+        "swapped order); every normal form is also written back as pattern text and compared with the original by "
+        "the independent evaluator; a case is non-trivial when the pattern(s) parsed, normalised and contain a "
+        "compound node" % (depth, nrule, nbound))
     with common.Lock():
         res = common.build_props("Props/C09.v")
         run.add_build(res, "make -C coq Props/C09.vo (coqc 8.16.1, full .vo) + Print Assumptions per theorem")
@@ -379,12 +410,16 @@ def check(run):
     fams = []
     pats = []
     rule_meta = {}
-    for n in range(nfam + nrule):
+    boundary = set()
+    for n in range(nfam + nrule + nbound):
         if n < nfam:
             members, rels = gen_family(rng, depth)
-        else:
+        elif n < nfam + nrule:
             members, rels, meta_a = gen_rule_family(rng)
             rule_meta[len(pats)] = meta_a
+        else:
+            members, rels = [("base", G.normalize_shape(G.absorb_boundary(rng)), [])], []
+            boundary.add(len(pats))
         ps = []
         for kind, ast, names in members:
             p = Pat(ast, rng, 0.06)
@@ -398,6 +433,7 @@ def check(run):
     run.coverage["distribution"] = dict(sorted(hist.items()))
     run.coverage["patterns"] = len(pats)
 
+    t_phase["generated"] = _time.time()
     # ---- implementation: normalise every pattern
     nres = common.run_impl("c09_impl", [{"op": "norm", "p": p.text} for p in pats])
     parse_mismatch = []
@@ -446,6 +482,7 @@ def check(run):
             fcases.append((ps[0], coll))
     fres = common.run_impl("c09_impl", [{"op": "find", "p": a.text, "ps": [x.text for x in coll]} for a, coll in fcases])
 
+    t_phase["impl_done"] = _time.time()
     # ---- model on the same cases
     nshards = max(1, min(48 if thorough else 20, len(fams) // 8))
     shard_of = {}
@@ -527,6 +564,7 @@ def check(run):
             run.broken.append(Broken("correspondence", "Model/PatternEq.v vs stix2.equivalence.pattern",
                                      {"first": dis[:5], "count": len(dis)}))
 
+    t_phase["model_done"] = _time.time()
     # ---- oracle: the property on the implementation's answers
     by_pair = {}
     for (kind, a, b, names), r in zip(ecases, eres):
@@ -615,7 +653,47 @@ def check(run):
             run.violations.append(Violation(
                 "find_equivalent_patterns returns members %s, the pairwise test says %s" % (r["r"], want),
                 {"kind": "find", "p": a.text, "ps": [x.text for x in coll]}))
+    # ---- oracle: the normal form itself is a pattern equivalent_patterns reports equivalent to the
+    #      original; written back as text it must match the same observation sequences
+    t_phase["pairs_done"] = _time.time()
+    nf_checked = nf_skipped = 0
+    nf_cases = []
+    for p in pats:
+        if not usable(p) or is_exc(p.impl.get("norm")) or "norm" not in p.impl:
+            continue
+        if not (run.broken or p.idx in boundary or p.idx % 3 == 0):
+            continue
+        try:
+            q_ast = G.normalize_shape(G.dump_to_ast(p.impl["norm"]))
+            if G.leaf_qualifier_clash(q_ast):
+                raise G.Unprintable("qualifier chain")
+            q_text = G.print_o(q_ast)[0]
+        except (G.Unprintable, ValueError, KeyError, IndexError, OverflowError):
+            nf_skipped += 1
+            continue
+        nf_checked += 1
+        count = 150 if (run.broken or p.idx in boundary) else 12
+        w = E.differ(rng, p.ast, q_ast, count)
+        if w is not None:
+            nf_cases.append((p, q_ast, q_text, w))
+    if nf_cases:
+        conf = common.run_impl("c09_impl", [{"op": "equiv", "p": p.text, "q": q_text} for p, _, q_text, _ in nf_cases])
+        for (p, q_ast, q_text, w), r in zip(nf_cases, conf):
+            if r.get("r") is True:
+                seq = E.seq_from_json(w["seq"])
+                run.violations.append(Violation(
+                    "equivalent_patterns(%r, %r) is True (the second is the normal form of the first) but they match "
+                    "different observation sequences" % (p.text, q_text),
+                    {"kind": "unsound", "p": p.text, "q": q_text, "ast_p": E.to_json(p.ast), "ast_q": E.to_json(q_ast),
+                     "seq": w["seq"], "observations": w["observations"],
+                     "matches_p": w["matches_first"], "matches_q": w["matches_second"]},
+                    finding=classify_unsound(p.ast, q_ast, seq)))
+    stats["normal_form_checked"] = nf_checked
+    stats["normal_form_not_printable"] = nf_skipped
+    stats["normal_form_differs"] = len(nf_cases)
+    t_phase["end"] = _time.time()
     run.coverage["oracle"] = stats
+    run.coverage["phase_seconds"] = {k: round(t_phase[k] - t_phase["start"], 1) for k in t_phase if k != "start"}
     run.coverage["rule_instances"] = dict(sorted(rules_hist.items()))
     for p in pats[:3]:
         run.sample({"pattern": p.text, "normal_form": impl_line_norm(p.impl)})
@@ -639,7 +717,15 @@ def check(run):
 # --------------------------------------------------------------------------
 
 def replay(payload):
-    r = payload["replay"]
+    r = payload.get("replay")
+    if r is None:
+        print("replay: this file stores no failing input; it names what no longer checks:")
+        for b in payload.get("no_longer_checks", [])[:5]:
+            print("  %s: %s" % (b.get("kind"), b.get("name")))
+            for d in (b.get("detail", {}).get("first") or [])[:2]:
+                print("    %s" % (str(d)[:400]))
+        print("VIOLATION property=C09 replay=(given) no-failing-input-found")
+        return 1
     kind = r.get("kind")
     one = lambda c: common.run_impl("c09_impl", [c], procs=1)[0]   # noqa: E731
     bad = False
